@@ -38,7 +38,7 @@ def run(ctx):
     h.mc(ctx, "keys-honest-single-C", "Acl_mc_keys.cfg", SET="C", SPECIFICATION="Spec", MaxDepth=3 if thorough else 2, workers=w, timeout=3000)
     h.mc(ctx, "keys-hostile-B", "Acl_mc_A.cfg", SET="B", MaxDepth=2 if thorough else 1, workers=w, timeout=3000)
     if thorough:
-        h.mc(ctx, "keys-honest-single-D", "Acl_mc_keys.cfg", SET="D", SPECIFICATION="Spec", MaxDepth=5, workers=w, timeout=3000)
+        h.mc(ctx, "keys-honest-single-D", "Acl_mc_keys.cfg", SET="D", SPECIFICATION="Spec", MaxDepth=4, workers=w, timeout=3000)
         h.mc(ctx, "keys-hostile-batch-D", "Acl_mc_batch.cfg", SET="D", MaxDepth=1, workers=w, timeout=3000)
     # ---- 2. the validator as it was found
     h.asis(ctx, "grant-without-key", ["KeyInv"], SET="B", MaxDepth=2, FIX_PERMCHANGE_MEMBER=False, workers=w)
@@ -48,8 +48,8 @@ def run(ctx):
     if thorough:
         h.emit(ctx, "C", "AclGen.cfg", SET="C", GenDepth=2, FullDepth=0, BatchDepth=1, timeout=3000)
         h.emit(ctx, "B", "AclGen.cfg", SET="B", GenDepth=1, FullDepth=0, BatchDepth=0, timeout=3000)
-        h.emit(ctx, "C-deep", "AclGen.cfg", SET="C", SimDepth=6, SimSample=6, simulate=80, depth=7, timeout=3000)
-        h.emit(ctx, "B-deep", "AclGen.cfg", SET="B", SimDepth=4, SimSample=8, simulate=40, depth=5, timeout=3000)
+        h.emit(ctx, "C-deep", "AclGen.cfg", SET="C", SimDepth=6, SimSample=8, simulate=40, depth=7, timeout=3000)
+        h.emit(ctx, "B-deep", "AclGen.cfg", SET="B", SimDepth=4, SimSample=8, simulate=20, depth=5, timeout=3000)
     else:
         h.emit(ctx, "C", "AclGen.cfg", SET="C", GenDepth=1, FullDepth=0, BatchDepth=0)
         h.emit(ctx, "D", "AclGen.cfg", SET="D", GenDepth=2, FullDepth=0, BatchDepth=0)
